@@ -490,12 +490,27 @@ def rule_default_subscriber(ctx):
     if init is None:
         raise AnalysisError('C01.o: DefaultSubscriber.__init__ vanished')
     kept = {}
+    defaults = {}  # call-back name -> (min, max positional arguments, takes *args) of its no-op default
     for n in walk_local(init.node):
         if isinstance(n, (ast.Assign, ast.AnnAssign)):
             t = n.targets[0] if isinstance(n, ast.Assign) else n.target
             if isinstance(t, ast.Attribute) and isinstance(t.value, ast.Name) and t.value.id == 'self' and \
                     isinstance(n.value, ast.Name):
                 kept[n.value.id] = t.attr
+            # `given or (lambda ...: None)` / `given if given is not None else (lambda ...: None)`: a no-op default
+            v = n.value
+            lam = src = None
+            if isinstance(v, ast.BoolOp) and isinstance(v.op, ast.Or) and len(v.values) == 2 and \
+                    isinstance(v.values[0], ast.Name) and isinstance(v.values[1], ast.Lambda):
+                src, lam = v.values[0].id, v.values[1]
+            if isinstance(v, ast.IfExp) and isinstance(v.body, ast.Name) and isinstance(v.orelse, ast.Lambda):
+                src, lam = v.body.id, v.orelse
+            if lam is not None and isinstance(t, ast.Attribute) and isinstance(t.value, ast.Name) and \
+                    t.value.id == 'self' and isinstance(lam.body, ast.Constant) and lam.body.value is None:
+                kept[src] = t.attr
+                a = lam.args
+                defaults[src] = (len(a.posonlyargs) + len(a.args) - len(a.defaults), len(a.posonlyargs) + len(a.args),
+                                 a.vararg is not None)
     for name in ('on_next', 'on_error', 'on_complete', 'on_subscribe'):
         f = k.methods.get(name)
         attr = kept.get(name)
@@ -522,7 +537,18 @@ def rule_default_subscriber(ctx):
                       e.data.get('name') in ('_on_next', '_on_error', '_on_complete', '_on_subscribe')]
             if others:
                 ok, detail = False, 'the signal is handed to %s' % others[0].data.get('name')
-            if given is None:
+            if given is None and name in defaults:
+                # the call-back is never None: called unconditionally, and the default must take what it is given
+                n_call += 1
+                n_skip += 1
+                lo, hi, star = defaults[name]
+                if len(calls) != 1 or [strip_epoch(a.term) for a in calls[0].data['args']] != params:
+                    ok, detail = False, 'the call-back is not called once with (%s)' % ', '.join(x[2] for x in params)
+                elif not (lo <= len(params) and (star or len(params) <= hi)):
+                    ok, detail = False, ('the no-op default takes %s argument(s) but is called with %d: every signal '
+                                         'of a subscriber built without this call-back raises TypeError' % (
+                                             lo if lo == hi else '%d..%d' % (lo, hi), len(params)))
+            elif given is None:
                 ok, detail = False, 'a path does not ask whether a call-back was given'
             elif given:
                 n_call += 1
